@@ -61,6 +61,15 @@ func corpus() []ccase {
 		{"format", a(sv("%05v"), n(-5)), "%v of a number is %g: zero padding"},
 		{"format", a(sv("%.1v"), sv("abc")), "%v of a string is %s: precision"},
 		{"formatdate", a(sv("'abc''"), sv("2006-01-02T15:04:05Z")), "unterminated literal ending in an escaped quote"},
+		{"jsondecode", a(sv("false}")), "value followed by a closing brace"},
+		{"jsondecode", a(sv("[1]]")), "value followed by a closing bracket"},
+		{"jsondecode", a(sv("1 ]")), "value followed by a closing bracket"},
+		{"jsondecode", a(sv("{\"a\":1}}")), "value followed by a closing brace"},
+		{"jsonencode", a(sv("\n\u0327")), "json-representable"},
+		{"jsonencode", a(sv("\u001e\u0301")), "json-representable"},
+		{"jsonencode", a(cty.ObjectVal(map[string]cty.Value{"\t\u0327": cty.TupleVal([]cty.Value{sv("a\r\u0301")})})), "json-representable"},
+		{"jsonencode", a(fl(1e300)), "json-representable"},
+		{"format", a(sv("%s|%q"), fl(math.Copysign(0, -1)), fl(math.Copysign(0, -1))), "text of negative zero: unpinned"},
 		{"formatdate", a(sv("'''"), sv("2006-01-02T15:04:05Z")), "escaped quote then unterminated literal"},
 
 		// --- numbers ---
